@@ -7,8 +7,10 @@ def q(name, entry, k, tier='quick', timeout=1500):
     return Query(f'{name}_k{k}', 'harness', UE.unit_enc, entry, defines=[f'VERIF_ITEM_CAP={k}', f'VERIF_SCRIPT_CAP={k + 10}'], unwind=k + 14, timeout=timeout, object_bits=10, tier=tier,
                  extra_cbmc=['--max-field-sensitivity-array-size', str(k + 20)], functions=FN,
                  bounded=(f'data tokens of 0..{k} bytes (the consensus element limit is 520)' if entry in ('h_enc_data', 'h_enc_minimal') else None))
-QUERIES = [q('enc_data', 'h_enc_data', 80), q('enc_minimal', 'h_enc_minimal', 80), q('enc_int', 'h_enc_int', 16), q('enc_opcode', 'h_enc_opcode', 16),
-           q('enc_data', 'h_enc_data', 300, 'thorough', 6000), q('enc_minimal', 'h_enc_minimal', 300, 'thorough', 6000)]
+PREFIX = Query('enc_prefix', 'harness', UE.unit_enc, 'h_enc_prefix', defines=['VERIF_ITEM_CAP=70000', 'VERIF_SCRIPT_CAP=70008', 'H_ENC_LENGTH_ONLY'], unwind=12, timeout=900, object_bits=10, functions=FN,
+               bounded='data of 9..70,000 bytes: push prefix and total length exact, payload bytes by length only')
+QUERIES = [PREFIX, q('enc_data', 'h_enc_data', 80), q('enc_minimal', 'h_enc_minimal', 80), q('enc_int', 'h_enc_int', 16), q('enc_opcode', 'h_enc_opcode', 16),
+           q('enc_data', 'h_enc_data', 130, 'thorough', 6000), q('enc_minimal', 'h_enc_minimal', 130, 'thorough', 6000)]
 META = {'level': 'proof', 'trusted_base': TRUSTED + ['stubs/enc_env.h: CScript as byte vector with end()-insert, WriteLE16/32 on a little-endian target'],
  'assumptions': ASSUME_COMMON + [
    "claimed: the encoding half - an already classified token (opcode / integer / data) is appended as the exact minimal encoding, for all int64 and all opcode bytes; data tokens up to the stated length",
@@ -16,7 +18,7 @@ META = {'level': 'proof', 'trusted_base': TRUSTED + ['stubs/enc_env.h: CScript a
  ],
  'explanation': 'contracts on the real Value::operator>> and CScript push encoders against the minimal-push grammar; lemma: decode(assembled push) = bytes and the interpreter\'s real CheckMinimalPush accepts it'}
 MANIFEST = {
- 'text': 'Encoding half of btcc: for every opcode byte, every int64 and every data string (0..80 bytes quick, 0..300 thorough) the real Value::operator>> / CScript::operator<< / push_int64 / CScriptNum::serialize append exactly the minimal encoding - one opcode byte; OP_0 / OP_1NEGATE / OP_1..16 or a direct push of the minimal script number; the minimal-form push that places exactly the given bytes on the stack - leave earlier bytes untouched, and every emitted push decodes back to the bytes and passes the interpreter\'s real CheckMinimalPush.',
- 'note': 'Token classification and the tokeniser are not applicable (libc string functions); lengths above 300 bytes (OP_PUSHDATA2 up to 520) not modelled.',
+ 'text': 'Encoding half of btcc: for every opcode byte, every int64 and every data string (bytes exact for 0..80 quick / 0..130 thorough; push prefix and total length exact for every length up to 70,000) the real Value::operator>> / CScript::operator<< / push_int64 / CScriptNum::serialize append exactly the minimal encoding - one opcode byte; OP_0 / OP_1NEGATE / OP_1..16 or a direct push of the minimal script number; the minimal-form push that places exactly the given bytes on the stack - leave earlier bytes untouched, and every emitted push decodes back to the bytes and passes the interpreter\'s real CheckMinimalPush.',
+ 'note': 'Token classification and the tokeniser are not applicable (libc string functions); payload bytes beyond the storage bound are modelled by length only.',
  'technique': 'assume/assert contracts on the real encoders sliced from value.h / script.h against a grammar-level spec, plus a decode/CheckMinimalPush lemma; CBMC',
  'design_ref': 'DESIGN.md 6 (C07)'}
